@@ -82,6 +82,8 @@ func TestDrive(t *testing.T) {
 				d.planRandom(a, false)
 			case "ext":
 				d.planRandom(a, true)
+			case "extf":
+				d.planExtF(a)
 			default:
 				t.Fatalf("unknown plan %q", p)
 			}
@@ -289,6 +291,58 @@ func (d *driver) planCrafted(cap, k int) {
 				d.dfs(Scenario{Nodes: cs.Nodes, API: "extcopygraph", Root: start, Dst0: []int{}, C: c}, cap/2+1)
 			}
 		}
+	}
+}
+
+// planExtF: extended copy with artifact-type / annotation filters and depth limits from memory, OCI-layout and remote
+// sources (Referrers API with a page limit, referrers tag schema).
+func (d *driver) planExtF(count int) {
+	d.plan = "extf"
+	filters := []string{"", `at:^application/vnd\.verif\.sig$`, `at:verif\.(sig|sbom)`, `at:^application/vnd\.oci\.image\.layer`,
+		`at:^$`, `at:idx`, "ann:verif.tier=^gold$", "ann:verif.tier=o", "annkey:verif.tier"}
+	for i := 0; i < count; i++ {
+		n := 4 + d.rng.Intn(5)
+		succ := vh.RandomSucc(n, d.rng, 25+d.rng.Intn(30))
+		nodes := vh.ShapeFromSucc(succ, d.rng, vh.ShapeOpts{Subjects: true, Artifact: true, Dup: d.rng.Intn(3) == 0})
+		for k := 1; k <= n; k++ {
+			if !vh.IsManifestKind(nodes[k].Kind) {
+				continue
+			}
+			switch nodes[k].Kind {
+			case "manifest":
+				if d.rng.Intn(3) == 0 {
+					nodes[k].Art = "" // the artifact type is then the config media type
+				} else if nodes[k].Art == "" && d.rng.Intn(2) == 0 {
+					nodes[k].Art = "application/vnd.verif.sig"
+				}
+			case "index":
+				if d.rng.Intn(2) == 0 {
+					nodes[k].Art = "application/vnd.verif.idx"
+				}
+			}
+			if x := d.rng.Intn(3); x < 2 {
+				nodes[k].Ann = map[string]string{"verif.tier": []string{"gold", "silver"}[x]}
+			}
+		}
+		sc := Scenario{Nodes: nodes, C: 1 + d.rng.Intn(3), Dst0: []int{}, Seed: d.rng.Int63(), API: "extcopygraph"}
+		sc.Root = 1 + d.rng.Intn(n)
+		sc.SrcKind = []string{"memory", "oci", "remote", "remote", "remotetag"}[d.rng.Intn(5)]
+		sc.DstKind = []string{"memory", "oci"}[d.rng.Intn(2)]
+		if sc.SrcKind == "remote" {
+			sc.RefPage = d.rng.Intn(3)
+		}
+		sc.Filter = filters[d.rng.Intn(len(filters))]
+		sc.Depth = []int{0, 0, 1, 2}[d.rng.Intn(4)]
+		if vh.IsManifestKind(nodes[sc.Root].Kind) && d.rng.Intn(2) == 0 {
+			sc.API = "extcopy"
+			if d.rng.Intn(2) == 0 {
+				sc.DstRef = "dstref"
+			}
+		}
+		if d.rng.Intn(6) == 0 {
+			sc.Faults = []Fault{{"pred", 1 + d.rng.Intn(n), "before"}}
+		}
+		d.run(&sc)
 	}
 }
 
